@@ -450,6 +450,9 @@ def build_entities(v, mods):
     def get(e):
         if e.oid not in objs:
             rec = mk_record(e.crec, topo=e.topo)
+            if len(e.crec.seq) % 3 == 1:
+                # a sequence-verified clone: per-letter qualities travel with the record
+                rec.letter_annotations["phred_quality"] = [20 + (i * 7) % 21 for i in range(len(e.crec.seq))]
             cls = faulty_subclass(e.cls) if e.faulty else e.cls
             objs[e.oid] = cls(rec)
             recs[e.oid] = rec
